@@ -93,7 +93,7 @@ def gen_reader_cases(ctx, n_streams):
         directed.append(('rtursp', [small, huge[:100], huge[100:255]] + tail))
     for role, d in directed:
         for fin in ['eof', 'pending']:
-            for mode in ['stop', 'resume']:
+            for mode in ['stop', 'resume', 'cancel']:
                 cases.append((role, mode, fin, d))
                 tags.append(({'directed'}, 'directed'))
     # a frame with a bad CRC followed by bytes that would verify against the STALE parser state
@@ -117,7 +117,8 @@ def gen_reader_cases(ctx, n_streams):
             s, bounds, t = gen_stream(r, role)
         for sched_tag, chunks in fc.schedules(r, s, bounds, want=2):
             fin = r.choice(['eof', 'pending', 'err'])
-            mode = 'resume' if r.random() < 0.2 else 'stop'
+            k = r.random()
+            mode = 'resume' if k < 0.2 else 'cancel' if k < 0.45 else 'stop'
             cases.append((role, mode, fin, chunks))
             tags.append((t, sched_tag))
     return cases, tags
@@ -274,14 +275,18 @@ def run(ctx):
         client_cases = [[([bytes.fromhex(x) for x in ch], fin) for ch, fin in c['client']] for c in cs if isinstance(c, dict) and 'client' in c]
     else:
         cases, tags = gen_reader_cases(ctx, 800 if ctx.quick() else 6000)
-    results = fc.evaluate(ctx, cases)
-    n_spec, n_model = fc.compare(ctx, cases, results, 'RTU reader')
+    decode = (ctx.replay or {}).get('decode', 'min')
+    results = fc.evaluate(ctx, cases, decode)
+    n_spec, n_model = fc.compare(ctx, cases, results, 'RTU reader', decode)
     ctx.oblige('correspondence:framed-reader-rtu', n_spec == 0 and n_model == 0, f'{n_model} model / {n_spec} spec mismatches over {len(cases)} cases')
     if not ctx.replay:
-        sample = cases[:300]
+        # full protocol decoding switched on: judged against the Spec again (a difference is a concrete violation,
+        # e.g. a frame accepted at decode level max although its CRC does not verify)
+        sample = cases[:600]
         loud = fc.evaluate_impl_only(ctx, sample, 'max')
-        diff = [k for k, (a, b) in enumerate(zip(loud, [x[0] for x in results[:300]])) if a != b]
-        ctx.oblige('decode-level-does-not-change-framing', not diff, f'{len(diff)} of {len(sample)} differ')
+        res_max = [(i, r[1], r[2], {}) for i, r in zip(loud, results[:600])]
+        ns, nm = fc.compare(ctx, sample, res_max, 'RTU reader', 'max')
+        ctx.oblige('decode-level-does-not-change-framing', ns == 0 and nm == 0, f'{ns} spec / {nm} model mismatches at decode level max over {len(sample)} cases')
 
     # ---- emission: client requests
     if emit_lines is None:
@@ -349,6 +354,8 @@ def run(ctx):
         bump('role:' + c[0])
         bump('schedule:' + sched)
         bump('mode:' + c[1])
+        if c[1] == 'cancel' and len(c[3]) >= 2 and 'F(' in impl:
+            bump('cancel:abandoned_mid_frame')
         for x in t:
             bump('stream:' + x)
         bump('ending:' + fc.ending_class(impl))
@@ -368,7 +375,7 @@ def run(ctx):
     if not ctx.replay:
         need = (['corrupt:%s->rejected' % c for c in CLASSES] + ['stream:fc:%d' % f for f in fc.FCS] +
                 ['stream:exception_reply', 'stream:length_preserving', 'stream:length_changing', 'ending:Crc', 'ending:UnknownFunctionCode',
-                 'ending:FrameLengthTooBig', 'role:rtureq', 'role:rtursp', 'schedule:byte_per_byte', 'mode:resume', 'stream:stale_state_bait', 'buffer:full_with_1..7_consumed', 'client_result:Ok', 'client_result:BadFrame', 'client_result:Exception'])
+                 'ending:FrameLengthTooBig', 'role:rtureq', 'role:rtursp', 'schedule:byte_per_byte', 'mode:resume', 'mode:cancel', 'cancel:abandoned_mid_frame', 'stream:stale_state_bait', 'buffer:full_with_1..7_consumed', 'client_result:Ok', 'client_result:BadFrame', 'client_result:Exception'])
         missing = [k for k in need if classes.get(k, 0) < 3]
         ctx.oblige('generator-reaches-expected-classes', not missing, 'missing: ' + ','.join(missing))
     nontrivial = set(fc.to_line(c) for c, (t, _) in zip(cases, tags) if any(x.startswith('corrupt:') for x in t))
